@@ -55,7 +55,7 @@ func init() {
 		"Decides: delivery cannot block on a node that was never reached (R14); ForwardEvent visits every consumer; the consumer list is copied under the read lock and forwarded outside it; a catch event matches only while activated, releases every parked token exactly once and clears the list (R42,R3,R22); posted message types have handlers (R5).",
 		"matching semantics per event kind, 'dropped without effect on later listeners' as a history fact.")
 	prop("C12", "Embedded sub-process",
-		[]string{"R1", "R2", "R3", "R11", "R36", "R35", "R60", "R73"}, nil,
+		[]string{"R1", "R2", "R3", "R11", "R36", "R35", "R60", "R73", "R12"}, nil,
 		"Decides: the completion signal the parent waits for can reach it (trace route, R35); the parent is resumed only after that signal and once (R2,R3); the inner monitor and the forwarding subscription precede the inner start (R11); the sub-process supports exactly the node kinds of a process (R36); inner tokens are counted (R1).",
 		"equivalence with the inlined content, re-entry in a loop.")
 	prop("C13", "Timers",
